@@ -1227,6 +1227,10 @@ orc_compiler_global_reg_alloc (OrcCompiler *compiler)
         break;
       case ORC_VAR_TYPE_DEST:
         var->ptr_register = orc_compiler_allocate_register (compiler, FALSE);
+        /* a destination array may also be the source of a resampling load */
+        if (var->need_offset_reg) {
+          var->ptr_offset = orc_compiler_allocate_register (compiler, FALSE);
+        }
         break;
       case ORC_VAR_TYPE_ACCUMULATOR:
         var->first_use = -1;
